@@ -310,4 +310,142 @@ def seeds_of(req):
         for i in range(0, 6):
             s.add(base + i)
             s.add(nb + i)
+        ap = p.get('applier') if isinstance(p.get('applier'), dict) else {}
+        app = ap.get('params') if isinstance(ap.get('params'), dict) else {}
+        ab = int(app.get('randomSeed', 0) or 0)
+        s.add(int(app.get('newCriterionRandomSeed', 0) or 0))
+        for i in range(0, 4):
+            s.add(ab + i)
     return s
+
+
+# ---- biases -------------------------------------------------------------------------------------
+BIASES = ['criteriaOmission', 'preferenceReversal', 'fatigue', 'criteriaConcealment', 'criteriaMixing', 'anchoring']
+ORDERINGS = [None, 'weakest', 'strongest', 'random', 'weakestByProbability', 'strongestByProbability']
+REF_TYPES = [None, 'importanceRatio', 'randomUniform', 'randomWeighted']
+
+
+def some_seed(rnd):
+    return rnd.choice([0, 1, 2, 7, 42, 99, 12345, rnd.randint(0, 10 ** 6)])
+
+
+def bounding_opts(rnd):
+    o = {}
+    r = rnd.random()
+    if r < 0.5:
+        pass
+    elif r < 0.65:
+        o['allowedValuesRangeScaling'] = 1.0
+    elif r < 0.8:
+        o['allowedValuesRangeScaling'] = rnd.choice([0.5, 3.0, 1.5])
+    else:
+        o['allowedValuesRangeScaling'] = rnd.choice([-1.0, 2.0])
+    if rnd.random() < 0.3:
+        o['disallowNegativeValues'] = True
+    return o
+
+
+def reference_opts(rnd):
+    o = {}
+    t = rnd.choice(REF_TYPES)
+    if t:
+        o['referenceCriterionType'] = t
+    if t in (None, 'importanceRatio') and rnd.random() < 0.7:
+        o['newCriterionImportance'] = rnd.choice([0.0, 0.25, 0.5, 0.75, 1.0, rnd.random()])
+    if t in ('randomUniform', 'randomWeighted'):
+        o['newCriterionRandomSeed'] = some_seed(rnd)
+    return o
+
+
+def split_opts(rnd, n_crits, keep_one=True):
+    o = {'ratio': rnd.choice([0.0, 0.25, 0.5, 0.34, 0.75, 1.0, round(rnd.random(), 2)])}
+    if rnd.random() < 0.3:
+        o['min'] = rnd.randint(0, max(0, n_crits - 1))
+    if rnd.random() < 0.4:
+        o['max'] = rnd.randint(o.get('min', 0), max(o.get('min', 0), n_crits - 1))
+    if keep_one and 'max' not in o:
+        o['max'] = max(o.get('min', 0), n_crits - 1)   # at least one criterion is kept
+    od = rnd.choice(ORDERINGS)
+    if od:
+        o['ordering'] = od
+    if od in ('random', 'weakestByProbability', 'strongestByProbability'):
+        o['randomSeed'] = some_seed(rnd)
+    return o
+
+
+def fun_def(rnd, zero_prob=0.15):
+    if rnd.random() < zero_prob:
+        return {'function': 'linear', 'params': {'a': 0, 'b': 0}}
+    if rnd.random() < 0.6:
+        return {'function': 'linear', 'params': {'a': rnd.choice([0.5, 1.0, 2.0, 0.25]), 'b': rnd.choice([0, 0, 0.125])}}
+    return {'function': 'expFromZero', 'params': {'alpha': rnd.choice([0.5, 1.0, 2.0, -1.0]), 'multiplier': rnd.choice([0.5, 1.0, 0.25])}}
+
+
+def gen_bias(rnd, name, req, n_crits):
+    alts = [a['id'] for a in req['knownAlternatives']]
+    if name in ('criteriaOmission', 'preferenceReversal'):
+        p = split_opts(rnd, n_crits, keep_one=(name == 'criteriaOmission'))
+    elif name == 'fatigue':
+        p = dict(bounding_opts(rnd), randomSeed=some_seed(rnd))
+        if rnd.random() < 0.55:
+            p['function'] = 'const'
+            p['params'] = {'value': rnd.choice([0, 0.1, 0.25, 0.5, 1.0, -0.5, 2.0])}
+        else:
+            p['function'] = 'expFromZero'
+            p['params'] = {'alpha': rnd.choice([0.01, 0.1, 0.5, -0.2]), 'multiplier': rnd.choice([0.1, 1.0, 0.5]),
+                           'queryNumber': rnd.choice([0, 1, 3, 10, 25])}
+    elif name == 'criteriaConcealment':
+        p = dict(bounding_opts(rnd), **reference_opts(rnd))
+        p['randomSeed'] = some_seed(rnd)
+        if rnd.random() < 0.6:
+            p['newCriterionScaling'] = rnd.choice([-1.0, 0.5, 1.0, 3.0])
+    elif name == 'criteriaMixing':
+        p = dict(reference_opts(rnd), randomSeed=some_seed(rnd))
+        if rnd.random() < 0.7:
+            p['mixingRatio'] = rnd.choice([0.0, 0.5, 1.0, 0.25, round(rnd.random(), 2)])
+    else:
+        k = rnd.choice([1, 1, 2, 3])
+        anch = [{'alternative': rnd.choice(alts), 'coefficient': rnd.choice([1.0, 0.5, 2.0, 1.5, 0.25])} for _ in range(k)]
+        applier = rnd.choice(['inline', 'inline', 'newCriterion'])
+        ap = bounding_opts(rnd)
+        if applier == 'inline':
+            if rnd.random() < 0.5:
+                ap['applyOnNotConsidered'] = True
+        else:
+            ap.update(reference_opts(rnd))
+            ap['randomSeed'] = some_seed(rnd)
+        p = {'anchoringAlternatives': anch, 'loss': fun_def(rnd), 'gain': fun_def(rnd),
+             'referencePoints': {'function': rnd.choice(['ideal', 'nadir'])},
+             'applier': {'function': applier, 'params': ap}}
+    b = {'name': name, 'props': p}
+    return b
+
+
+def add_biases(rnd, req, names=None, length=None, prob_mix=True, disabled_prob=0.1):
+    n_crits = len(req['criteria'])
+    if names is None:
+        length = length if length is not None else rnd.choice([1, 1, 2, 2, 3, 4])
+        names = [rnd.choice(BIASES) for _ in range(length)]
+    bs = []
+    for nm in names:
+        b = gen_bias(rnd, nm, req, n_crits)
+        if prob_mix:
+            r = rnd.random()
+            if r < 0.15:
+                b['applyProbability'] = 0.0
+            elif r < 0.3:
+                b['applyProbability'] = round(rnd.random(), 3)
+            elif r < 0.4:
+                b['applyProbability'] = 1.0
+        if rnd.random() < disabled_prob:
+            b['disabled'] = True
+            if rnd.random() < 0.5:
+                b['name'] = 'noSuchBias'
+        bs.append(b)
+    req = dict(req, biases=bs)
+    return req
+
+
+def biased_request(rnd, method=None, names=None, length=None, prob_mix=True):
+    req = any_request(rnd, method)
+    return add_biases(rnd, req, names=names, length=length, prob_mix=prob_mix)
